@@ -462,6 +462,85 @@ type ioSpec struct {
 	Wrapper string `json:"wrapper,omitempty"`
 }
 
+var symlinkVariants = []string{"symlink-to-file", "symlink-chain-of-two", "relative-symlink", "symlink-into-another-directory"}
+
+// a path that is a symbolic link to a regular file: Dump writes through it, the loaders read through it
+func symlinkPath(variant string) string {
+	base := tmpFile("io-" + variant)
+	os.RemoveAll(base)
+	os.MkdirAll(filepath.Join(base, "other"), 0755)
+	target := filepath.Join(base, "real.link")
+	link := filepath.Join(base, "name.link")
+	switch variant {
+	case "symlink-to-file":
+		os.Symlink(target, link)
+	case "symlink-chain-of-two":
+		mid := filepath.Join(base, "mid.link")
+		os.Symlink(target, mid)
+		os.Symlink(mid, link)
+	case "relative-symlink":
+		os.Symlink("real.link", link)
+	case "symlink-into-another-directory":
+		target = filepath.Join(base, "other", "real.link")
+		os.Symlink(target, link)
+	}
+	os.WriteFile(target, []byte("{}"), 0644) // the file exists before the library writes to the path
+	return link
+}
+
+func runSymlink(sp ioSpec) (impl, oracle string) {
+	path := symlinkPath(sp.Variant)
+	link := intoto.Link{Type: "link", Name: "via a symlink", Materials: map[string]intoto.HashObj{}, Products: map[string]intoto.HashObj{"a": {"sha256": "00ff"}},
+		ByProducts: map[string]interface{}{}, Command: []string{}, Environment: map[string]interface{}{}}
+	want := showPayload(link)
+	impl = lib.Recover(func() string {
+		var err error
+		if sp.Wrapper == "L" {
+			mb := intoto.Metablock{Signed: link}
+			err = mb.Dump(path)
+		} else {
+			env := &intoto.Envelope{}
+			if e := env.SetPayload(link); e != nil {
+				return "SETPAYLOAD-ERR"
+			}
+			err = env.Dump(path)
+		}
+		if err != nil {
+			return "Dump=ERR"
+		}
+		if st, e := os.Lstat(path); e != nil || st.Mode()&os.ModeSymlink == 0 {
+			return "Dump=OK,but-the-path-is-no-longer-a-symlink"
+		}
+		res := "Dump=OK"
+		md, lerr := intoto.LoadMetadata(path)
+		switch {
+		case lerr != nil:
+			res += "|LoadMetadata=ERR"
+		default:
+			pl, _, _ := contentOfMd(md)
+			if showPayload(pl) == want {
+				res += "|LoadMetadata=same"
+			} else {
+				res += "|LoadMetadata=other-content"
+			}
+		}
+		var mb intoto.Metablock
+		if e := mb.Load(path); e != nil {
+			res += "|Metablock.Load=ERR"
+		} else if showPayload(mb.Signed) == want {
+			res += "|Metablock.Load=same"
+		} else {
+			res += "|Metablock.Load=other-content"
+		}
+		return res
+	})
+	oracle = "Dump=OK|LoadMetadata=same|Metablock.Load=same"
+	if sp.Wrapper == "D" {
+		oracle = "Dump=OK|LoadMetadata=same|Metablock.Load=ERR"
+	}
+	return
+}
+
 var loadVariants = []string{"nonexistent", "directory", "empty-file", "blank-file", "dangling-symlink", "symlink-to-directory", "below-a-file"}
 var dumpVariants = []string{"nonexistent-directory", "is-a-directory", "below-a-file", "writable"}
 
@@ -506,6 +585,9 @@ func ioPath(variant string) string {
 }
 
 func runIO(sp ioSpec) (impl, oracle string) {
+	if sp.Op == "symlink" {
+		return runSymlink(sp)
+	}
 	path := ioPath(sp.Variant)
 	if sp.Op == "load" {
 		lm := lib.Recover(func() string {
@@ -569,6 +651,11 @@ func ioCase(sp ioSpec) lib.Case {
 	impl, oracle := runIO(sp)
 	klass := "load-not-a-file"
 	desc := "LoadMetadata and Metablock.Load on a path that is: " + sp.Variant
+	if sp.Op == "symlink" {
+		wn := map[string]string{"L": "Metablock.Dump", "D": "Envelope.Dump"}[sp.Wrapper]
+		klass = "path-is-a-symlink"
+		desc = wn + " to, then both loaders from, a path that is a: " + sp.Variant
+	}
 	if sp.Op == "dump" {
 		wn := map[string]string{"L": "Metablock.Dump", "D": "Envelope.Dump"}[sp.Wrapper]
 		klass = "dump-unwritable-" + map[string]string{"L": "metablock", "D": "envelope"}[sp.Wrapper]
@@ -807,7 +894,7 @@ func sample(r *lib.Rng, cs []corruption, n int) []corruption {
 	var out []corruption
 	var rest []corruption
 	for _, c := range cs {
-		if c.Klass == "drop@wrapper" || c.Klass == "null@wrapper" || c.Klass == "retype@wrapper" {
+		if c.Klass == "drop@wrapper" || c.Klass == "null@wrapper" || c.Klass == "retype@wrapper" || strings.HasPrefix(c.Klass, "wrapper-key-case") {
 			out = append(out, c)
 		} else {
 			rest = append(rest, c)
@@ -892,6 +979,11 @@ func gen(out string, n int) {
 	// I/O level: unreadable paths for the loaders, unwritable paths for the writers (and the writable twin)
 	for _, v := range loadVariants {
 		w.Put(ioCase(ioSpec{Op: "load", Variant: v}))
+	}
+	for _, v := range symlinkVariants {
+		for _, wr := range []string{"L", "D"} {
+			w.Put(ioCase(ioSpec{Op: "symlink", Variant: v, Wrapper: wr}))
+		}
 	}
 	for _, v := range dumpVariants {
 		for _, wr := range []string{"L", "D"} {
